@@ -1,6 +1,6 @@
 #!/bin/bash
 # Runs every check of MANIFEST.json in the given tier (default quick) and prints one line each.
-cd /verif
+cd "$(dirname "$(readlink -f "$0")")"
 tier=${1:-quick}
 python3 run.py C01 --tier $tier >/dev/null 2>&1  # builds once
 rc_all=0
